@@ -71,6 +71,8 @@ def translators():
   out['Src_prepare'] = lambda: translate_prepare.translate(REPO)
   import translate_supervised
   out['Src_supervised'] = lambda: translate_supervised.translate(REPO)
+  import translate_itml
+  out['Src_itml'] = lambda: translate_itml.translate(REPO)
   try:
     import translate_all
     out.update(translate_all.TRANSLATORS)
